@@ -86,6 +86,39 @@ def make_jobs(chk):
                 n += 1
                 jobs.append(SessionJob("hs%d:%s" % (n, typ), b"", [], drivers.STANDARD, "BASE", cmds=pat, cmp=[x for x in gen_spend.CMP_SPEND if x != "verdict"] + ["cspos", "oppos"],
                                        hist=True, auto=True, txctx={"tx": c.tx.hex(), "txin": c.funding.hex(), "select": -1}))
+    # a code separator in a branch that is not taken must not move the signed-code start - also not after going back and forth over it
+    import btc
+    for rep in range(2 if quick else 10):
+        for typ in ("p2wsh", "bare"):
+            sec = rng.randrange(1, btc.N); key = btc.pubkey_create(sec)
+            ws = b"\x00" + bytes([O["IF"], O["CODESEPARATOR"], O["ENDIF"]]) + G.push(key) + bytes([O["CHECKSIG"]])
+            c = gen_spend.SpendCase(rng, "p2wsh", "valid", 1, 0, 0)
+            amt = c.funding.vout[0].amount
+            if typ == "p2wsh":
+                c.funding.vout[0] = btc.TxOut(amt, btc.p2wsh(ws)[0]); c.tx.vin[0].prev_txid = c.funding.txid()
+                r_, s_ = btc.ecdsa_sign(sec, btc.sighash_bip143(c.tx, 0, ws, amt, 1))
+                c.tx.witness[0] = [btc.der_encode(r_, s_) + b"\x01", ws]
+                fl = drivers.STANDARD
+            else:
+                c.funding.vout[0] = btc.TxOut(amt, ws); c.tx.vin[0].prev_txid = c.funding.txid(); c.tx.witness = [[]]
+                r_, s_ = btc.ecdsa_sign(sec, btc.sighash_legacy(c.tx, 0, ws, 1))
+                c.tx.vin[0].script_sig = G.push(btc.der_encode(r_, s_) + b"\x01")
+                fl = [f for f in drivers.STANDARD if f != "CONST_SCRIPTCODE"]
+            for pat in (["step"] * 4 + ["rewind"] + ["steps"], ["step"] * 5 + ["rewind"] * 2 + ["steps"], (["step"] * 3 + ["rewind"] * 2) * 3 + ["steps"], ["step"] * 6 + ["rewind"] * 6 + ["steps"]):
+                n += 1
+                jobs.append(SessionJob("hc%d:untaken-codesep:%s" % (n, typ), b"", [], fl, "BASE", cmds=pat, cmp=[x for x in gen_spend.CMP_SPEND if x != "verdict"] + ["cspos"],
+                                       hist=True, auto=True, txctx={"tx": c.tx.hex(), "txin": c.funding.hex(), "select": -1}))
+    # a tapscript leaf longer than 65535 bytes: positions beyond 16 bits survive a rewind
+    if True:
+        leaf = (G.push(b"\x5a" * 520, 2) + bytes([O["DROP"]])) * 126 + b"\x51"
+        internal = btc.xonly_pubkey(rng.randrange(1, btc.N))[0]
+        spk0, info = btc.p2tr(internal, [(leaf, 0xc0)])
+        c = gen_spend.SpendCase(rng, "p2tr-key", "valid", 1, 0, 0)
+        c.funding.vout[0] = btc.TxOut(c.funding.vout[0].amount, spk0); c.tx.vin[0].prev_txid = c.funding.txid()
+        c.tx.witness[0] = [leaf, info["leaves"][0]["control_block"]]
+        n += 1
+        jobs.append(SessionJob("hc%d:leaf66k" % n, b"", [], drivers.STANDARD, "BASE", cmds=["step"] * 253 + ["rewind"] * 2 + ["step"] * 3 + ["rewind"] * 4 + ["steps"],
+                               cmp=["stack", "alt", "cond", "err", "done", "pc", "seq"], hist=True, auto=True, txctx={"tx": c.tx.hex(), "txin": c.funding.hex(), "select": -1}))
     # random walks on long generated scripts
     for i, (sv, s) in enumerate(G.long_scripts(rng, 60 if quick else 800)):
         cmds = []
